@@ -157,6 +157,16 @@ Record bucket := mkBucket {
 
 Inductive failure := FCrash | FDeadlock.
 
+(* planned repairs of the pinned code, each selectable:
+     fx21  Value.Collect starts from zeroed accumulators            (F21)
+     fx22  max initialised from the first value                     (F22)
+     fxN1  BucketStats.Set installs rules only when all are well-formed:
+           a malformed specification changes nothing                (C19-N1)
+     fxN2  AverageStats unlocks a source that lacks the measure     (C19-N2) *)
+Record fixes := mkFix { fx21 : bool; fx22 : bool; fxN1 : bool; fxN2 : bool }.
+Definition pinned : fixes := mkFix false false false false.
+Definition all_fixed : fixes := mkFix true true true true.
+
 Record mstate := mkM {
   objs : list stats;         (* every *Stats object created so far; 0 is the monitor's global one *)
   bks : list bucket;
@@ -242,7 +252,7 @@ Fixpoint bucket_set (bl : list bucket) (nb : bucket) : list bucket :=
      stat.Lock(); value, ok := stat.values[k]; if !ok { continue }; ...; stat.Unlock()
    returns the values found and the objects (a source without the key STAYS locked);
    None = Lock() on an already locked source blocks forever *)
-Fixpoint avg_key (os : list stats) (srcs : list nat) (k : string) (acc : list value)
+Fixpoint avg_key (fixN2 : bool) (os : list stats) (srcs : list nat) (k : string) (acc : list value)
   : option (list stats * list value) :=
   match srcs with
   | [] => Some (os, acc)
@@ -252,20 +262,22 @@ Fixpoint avg_key (os : list stats) (srcs : list nat) (k : string) (acc : list va
       | Some s =>
           if locked s then None
           else match vals_find (vals s) k with
-               | Some v => avg_key os r k (acc ++ [v])
-               | None => avg_key (set_nth os i (mkStats (statics s) (vals s) true)) r k acc
+               | Some v => avg_key fixN2 os r k (acc ++ [v])
+               | None =>
+                   if fixN2 then avg_key fixN2 os r k acc
+                   else avg_key fixN2 (set_nth os i (mkStats (statics s) (vals s) true)) r k acc
                end
       end
   end.
 
-Fixpoint avg_keys (os : list stats) (srcs : list nat) (keys : list string)
+Fixpoint avg_keys (fixN2 : bool) (os : list stats) (srcs : list nat) (keys : list string)
   (acc : list (string * value)) : option (list stats * list (string * value)) :=
   match keys with
   | [] => Some (os, acc)
   | k :: r =>
-      match avg_key os srcs k [] with
+      match avg_key fixN2 os srcs k [] with
       | None => None
-      | Some (os', vs) => avg_keys os' srcs r (acc ++ [(k, average_value vs)])
+      | Some (os', vs) => avg_keys fixN2 os' srcs r (acc ++ [(k, average_value vs)])
       end
   end.
 
@@ -287,7 +299,8 @@ Definition do_measure (m : mstate) (k : string) (x : Q) (h : Z) : mstate * out :
     | Some os' => (with_objs m os', OutNone)
     end).
 
-Definition mstep (f21 f22 : bool) (m : mstate) (o : op) : mstate * out :=
+Definition mstep (fx : fixes) (m : mstate) (o : op) : mstate * out :=
+  let f21 := fx21 fx in let f22 := fx22 fx in
   match dead m with
   | Some f => (m, fail_out f)
   | None =>
@@ -301,7 +314,8 @@ Definition mstep (f21 f22 : bool) (m : mstate) (o : op) : mstate * out :=
         let '(rs, ok) := parse_rules rules in
         let old := match bucket_find (bks m) idx with Some b => b_obj b | None => None end in
         let nb := mkBucket idx rs (if ok then Some i else old) in
-        (mkM (objs m ++ [new_stats st]) (bucket_set (bks m) nb) None, OutNone)
+        let bl := if fxN1 fx && negb ok then bks m else bucket_set (bks m) nb in
+        (mkM (objs m ++ [new_stats st]) bl None, OutNone)
     | OWire k x h =>
         if String.eqb (lower k) "end" then (m, OutNone) else do_measure m k x h
     | OMeasure k x h => do_measure m k x h
@@ -331,8 +345,9 @@ Definition mstep (f21 f22 : bool) (m : mstate) (o : op) : mstate * out :=
         match srcs with
         | [] => (with_objs m (objs m ++ [new_stats []]), OutNone)
         | i0 :: _ =>
+            if negb (forallb (fun i => Nat.ltb i (List.length (objs m))) srcs) then (m, OutBadObj) else
             on_obj m i0 (fun s0 =>
-              match avg_keys (objs m) srcs (map fst (vals s0)) [] with
+              match avg_keys (fxN2 fx) (objs m) srcs (map fst (vals s0)) [] with
               | None => die m FDeadlock
               | Some (os', kvs) =>
                   (with_objs m (os' ++ [mkStats (statics s0) kvs false]), OutNone)
@@ -341,14 +356,14 @@ Definition mstep (f21 f22 : bool) (m : mstate) (o : op) : mstate * out :=
     end
   end.
 
-Fixpoint mrun (f21 f22 : bool) (m : mstate) (ops : list op) : mstate * list out :=
+Fixpoint mrun (fx : fixes) (m : mstate) (ops : list op) : mstate * list out :=
   match ops with
   | [] => (m, [])
   | o :: r =>
-      let '(m1, x) := mstep f21 f22 m o in
-      let '(m2, xs) := mrun f21 f22 m1 r in
+      let '(m1, x) := mstep fx m o in
+      let '(m2, xs) := mrun fx m1 r in
       (m2, x :: xs)
   end.
 
-Definition run_outs (f21 f22 : bool) (st : list (string * string)) (ops : list op) : list out :=
-  snd (mrun f21 f22 (init_state st) ops).
+Definition run_outs (fx : fixes) (st : list (string * string)) (ops : list op) : list out :=
+  snd (mrun fx (init_state st) ops).
